@@ -7,6 +7,10 @@ func init() {
 		plans[p] = propPlan{Scenarios: []string{"tunnel"}, QuickRuns: 4000, ThoroughDur: 10 * time.Minute}
 	}
 	plans["C17"] = propPlan{Scenarios: []string{"tunnel", "router"}, QuickRuns: 4000, ThoroughDur: 10 * time.Minute}
+	plans["C16"] = propPlan{Scenarios: []string{"socket", "socket", "tunnel"}, QuickRuns: 4000, ThoroughDur: 10 * time.Minute}
+	plans["C01"] = propPlan{Scenarios: []string{"decoder"}, QuickRuns: 4000, ThoroughDur: 10 * time.Minute}
+	plans["C20"] = propPlan{Scenarios: []string{"describe"}, QuickRuns: 4000, ThoroughDur: 10 * time.Minute}
+	plans["C12"] = propPlan{Scenarios: []string{"groups"}, QuickRuns: 4000, ThoroughDur: 10 * time.Minute}
 	plans["C13"] = propPlan{Scenarios: []string{"router"}, QuickRuns: 4000, ThoroughDur: 10 * time.Minute}
 	plans["C14"] = propPlan{Scenarios: []string{"router"}, QuickRuns: 4000, ThoroughDur: 10 * time.Minute}
 }
